@@ -31,7 +31,10 @@ def instantiations(tier, seed):
         lv = list(pl.leaves(m))
         ids = pl.explicit_ids(m)
         pool = lv + ids
-        picked = rng.sample(pool, min(2 if tier == 'quick' else 3, len(pool)))
+        # every assumed id carries a symbolic presence flag and value (forks multiply with the model's own forks): fewer of them on heavy models
+        ncomp = len(pl.compounds(m))
+        want = (2 if ncomp <= 5 else 1) if tier == 'quick' else (3 if ncomp <= 4 else (2 if ncomp <= 6 else 1))
+        picked = rng.sample(pool, min(3, len(pool)))[:want]
         if k % 4 == 0 and m.get("id") and m["id"] not in picked:
             picked[-1] = m["id"]
         forms = {x: FORMS[(n + k) % 3] for n, x in enumerate(pool)}
